@@ -9,7 +9,7 @@ From HV Require Export Base.Prelude C19.Model C19.Proofs.
     (C19-F1 … F8) and 07a625c (C18-F2).  [no_fixes] is the pinned tree. *)
 Definition impl_fixes : fixes :=
   {| fx1 := true; fx2 := true; fx3 := true; fx4 := true; fx5 := true; fx6 := true; fx7 := true; fx8 := true;
-     fx9 := false;    (* C19-F9 is open: fixes/C19-F9.diff *)
+     fx9 := true;     (* C19-F9 repaired by fix: commit b37641c *)
      fx18 := true |}.
 
 Definition memn (l : list nat) (n : nat) : bool := existsb (Nat.eqb n) l.
